@@ -221,6 +221,30 @@ def run(ck):
                                                  found="no .empty / length guard on the path",
                                                  required="`.empty` (or len) guard dominating .tolist()",
                                                  path=pa.describe())
+                    # ---------------- G2 (iteration form): what groupby(..).apply(..) returns is iterated directly
+                    its2 = []
+                    if st[0] == "comp":
+                        its2 = [g0[0] for g0 in st[3]]
+                    elif st[0] == "call" and st[1] in ("list", "tuple", "sorted", "iter", "enumerate", "filter", "map") and st[2]:
+                        its2 = [st[2][-1]]
+                    elif st[0] == "elem":
+                        its2 = [st[1]]
+                    for it2 in its2:
+                        chain2 = _receiver_chain(it2)
+                        if fn.module.name in READER_SCOPE and any(
+                                c[0] == "mcall" and c[2] == "apply" and any(c2[0] == "mcall" and c2[2] == "groupby" for c2 in _receiver_chain(c[1]))
+                                for c in chain2):
+                            k2 = ("G2i", fn.qualname)
+                            guarded2 = any(f2.get(T.mk_attr(c, "empty")) is False for c in chain2) or any(f2.get(c) is True for c in chain2)
+                            if k2 not in seen and not guarded2:
+                                seen.add(k2)
+                                g2 += 1
+                                ck.violation("C07.G2", short(fn) + ":iterated", where(fn, node),
+                                             "the result of groupby(..).apply(..) is iterated without an .empty guard: for a table "
+                                             "without rows (a header-only CMAP, an id filter that matches nothing) pandas hands back an "
+                                             "empty DataFrame, and iterating a DataFrame yields its column names - strings that are then "
+                                             "treated as optical maps", found=T.show(it2)[:160],
+                                             required="`[] if x.empty else ...` before the result is walked", path=pa.describe())
                     # ---------------- G17: a column of a frame built from a possibly empty list of records
                     if st[0] == "idx" and st[1][0] == "call" and st[1][1].endswith("DataFrame") and st[1][2] \
                             and st[1][2][0][0] in ("comp", "list") and not any(k0 == "columns" for k0, _ in st[1][3]) \
@@ -288,6 +312,8 @@ def run(ck):
                     elif st[0] == "call" and st[1] in ("statistics.fmean", "statistics.mean", "statistics.median") \
                             and len(st[2]) == 1:
                         idiom, arg = st[1], st[2][0]
+                    elif st[0] == "call" and st[1] in ("numpy.convolve", "numpy.correlate") and len(st[2]) >= 2:
+                        idiom, arg = st[1], st[2][0]          # ValueError: a / v cannot be empty
                     elif st[0] == "mcall" and st[2] in ("max", "min", "argmax", "argmin") and not st[3] \
                             and not any(k0 == "initial" for k0, _ in st[4]):
                         idiom, arg = "." + st[2], st[1]
@@ -313,6 +339,8 @@ def run(ck):
                                   T.show(arg)[:120])
                         else:
                             ck.violation("C07.G3", short(fn) + ":" + idiom, w,
+                                         (f"{idiom}(a, v) raises ValueError when `a` is empty, and the vector of a reference window may be "
+                                          "empty (a seed in the unlabelled tail of a reference)") if idiom.startswith("numpy.co") else
                                          f"{idiom}(...) without default/initial over an iterable that may be empty",
                                          found=T.show(st)[:300],
                                          required="default= / initial= or a dominating non-emptiness guard",
@@ -342,17 +370,18 @@ def run(ck):
     ck.clause("C07.G9", "row header coordinates are the exact label coordinates: getUnalignedFragments finds the cut point with "
                         "positions.index(<header coordinate>), which raises ValueError for an altered (e.g. rounded) value")
     from .c02 import header_derivation
-    header_derivation(ck, "C07.G9")
+    header_derivation(ck, "C07.G9", exact=True)
     ck.clause("C07.G10", "the additional output file name is built with os.path.splitext (total: any path, with or without an "
                          "extension) - never by unpacking a split of the name")
     from .c08 import _file_naming
-    _file_naming(ck, "C07.G10")
+    from ..report import RuleView
+    _file_naming(RuleView(ck, {"C07.G10": "C07.G10"}, only_constructs=(":name", ":source")), "C07.G10")     # the name only: the open mode cannot abort a run
     _unhashable_in_sets(ck, fns)
     ck.clause("C07.G12", "the join-score denominators are positive (max(..., 1) floor): two segments that touch exactly do not "
                          "divide by zero (as C14.1)")
     from ..report import RuleView
     from . import c14
-    c14.join_score(RuleView(ck, {"C14.1": "C07.G12"}))
+    c14.join_score(RuleView(ck, {"C14.1": "C07.G12"}, only_constructs=(":variant#",)))      # the quotients only
     ck.clause("C07.G14", "an attribute read in a branch guarded by isinstance(x, K) exists on K (no AttributeError for one of the "
                          "classes the branch is taken for)")
     from ..rules.narrow import findings as narrow_findings
@@ -362,19 +391,22 @@ def run(ck):
         if f.is_lambda:
             continue
         n_fn += 1
-        for kind, node, text in narrow_findings(ctx, f):
+        found14 = list(narrow_findings(ctx, f))
+        # a branch whose isinstance test can never hold (a dead test, by the declared element type) raises nothing
+        dead14 = {ast.unparse(n0.args[0]) for k0, n0, _ in found14 if k0 == "dead-test"}
+        for kind, node, text in found14:
             if kind == "missing-attr":
+                if isinstance(node, ast.Attribute) and ast.unparse(node.value) in dead14:
+                    continue
                 n_hit += 1
                 ck.violation("C07.G14", short(f) + ":" + ast.unparse(node), where(f, node), text, found=ast.unparse(node),
                              required="an attribute every class of the isinstance test defines")
     ck.floor("C07.G14 functions scanned for attribute reads under isinstance guards", n_fn, 150)
     if not n_hit:
         ck.ok("C07.G14", "run path", "src/", f"{n_fn} functions: every attribute read under an isinstance guard exists on the guarded class(es)")
-    ck.clause("C07.G13", "no array or table survives from one molecule (or fragment) to the next: a cached value of another "
-                         "length aborts the run in the next correlation (as C10.1 / C09.3)")
-    from . import c10, c09
-    c10.module_state(RuleView(ck, {"C10.1": "C07.G13"}), skip_scalar=True)
-    c09.persistent_state(ck, "C07.G13")
+    # C07.G13 (persistent state as a cause of aborts) was withdrawn: whether a stale cached array has "another length" than the
+    # vector it meets is a run-time quantity; the structural rule (no worker-persistent state at all) fired on changes that leave
+    # this property intact (caches keyed completely, id sets, scalars). Such state is C09.3 / C10.1's business, where it is exact.
 
 
 def _unhashable_in_sets(ck, fns):
